@@ -291,6 +291,22 @@ func checkC14(c c14Case) error {
 			}
 			stats.Class("signed-and-verified")
 		}
+		// the same signer object again: after a call that failed (entropy source broken) and with another message
+		_, ferr := sg.Sign(&faultyReader{inner: refcose.NewEntropy(nil), left: 0}, append([]byte("failed call: "), c.Message...))
+		msg3 := append([]byte("third message: "), c.Message...)
+		sig3, err := sg.Sign(refcose.NewEntropy([]byte("c14-3")), msg3)
+		if err != nil {
+			return finding("sign-fails", "signer from COSE_Key fails on its third call: %v", err)
+		}
+		if !refcose.Verify(alg, pub, msg3, sig3) {
+			return finding("ref-verify/signer-reused", "the signer from the COSE_Key signs something else than the message it is given once an earlier call on it has failed (failed call returned %v)", ferr)
+		}
+		if verr == nil {
+			if err := vf.Verify(msg3, sig3); err != nil {
+				return finding("verify-fails/signer-reused", "verifier from the public COSE_Key rejects the third signature of the same signer object: %v", err)
+			}
+		}
+		stats.Class("signer-reused-after-failed-call")
 	}
 	if verr == nil {
 		// a reference-made signature is accepted too
